@@ -1112,23 +1112,6 @@ class Emitter:
                 return ty
         return None
 
-    def oneline(self, lines):
-        """a multi-line do block as one `{ a; b }` group (used for closures)."""
-        return self._group(lines, 0)[0]
-
-    def _group(self, lines, i):
-        # lines are indented by 2 per level; rebuild nesting with braces is fragile: only flat blocks and if/match chains
-        out = []
-        base = len(lines[i]) - len(lines[i].lstrip())
-        while i < len(lines):
-            ln = lines[i]
-            ind = len(ln) - len(ln.lstrip())
-            if ind < base:
-                break
-            out.append(ln.strip())
-            i += 1
-        return ["\n      " + x for x in out], i
-
     # -- expressions
     def expr(self, e, env, ctx, want=None):
         it = ctx.it
